@@ -5,7 +5,11 @@ pub type VMap = Seq<Map<Seq<char>, Version>>;
 pub closed spec fn scoped(e: Environment) -> VMap { ve_blocks(e.scoped_versions) }
 pub closed spec fn global(e: Environment) -> VMap { ve_blocks(e.global_versions) }
 pub closed spec fn env_decls(e: Environment) -> Declarations { e.declarations }
-pub open spec fn env_ok(e: Environment) -> bool { scoped(e).len() > 0 && global(e).len() > 0 }
+pub open spec fn env_ok(e: Environment) -> bool { scoped(e).len() > 0 && global(e).len() > 0 && locals_only(e) }
+// only local variables are ever given versions (parameters are locals)
+pub open spec fn locals_only(e: Environment) -> bool {
+    forall|n: VariableName| #![trigger current(e, n)] current(e, n) is Some ==> is_local_var(e, vn_base(n))
+}
 pub open spec fn is_local_var(e: Environment, n: VariableName) -> bool { decl_type(env_decls(e), n) == Some(VariableType::Local) }
 pub open spec fn kof(n: VariableName) -> Seq<char> { key_of(vn_base(n)) }
 // the current (scoped) and the highest (global) version of a variable
@@ -106,6 +110,8 @@ pub open spec fn all_access_unversioned(s: Seq<AccessType>, n: int) -> bool
 // how the environment may move while an expression is renamed: current versions that exist stay; nothing is forgotten
 pub open spec fn env_step(e0: Environment, e1: Environment) -> bool {
     &&& forall|k: Seq<char>| #![trigger lookup(scoped(e1), k)] lookup(scoped(e0), k) is Some ==> lookup(scoped(e1), k) == lookup(scoped(e0), k)
+    // a variable that has a current version is not handed a new one while an expression is renamed
+    &&& forall|k: Seq<char>| #![trigger lookup(global(e1), k)] lookup(scoped(e0), k) is Some ==> lookup(global(e1), k) == lookup(global(e0), k)
     &&& scoped(e1).len() == scoped(e0).len() && global(e1).len() == global(e0).len() && env_decls(e1) == env_decls(e0)
 }
 // statement-level verdict: every read names the version current BEFORE the statement's own write; the written local
@@ -184,6 +190,10 @@ pub proof fn lemma_env_step_trans(e0: Environment, e1: Environment, e2: Environm
 {
     assert forall|k: Seq<char>| #![trigger lookup(scoped(e2), k)] lookup(scoped(e0), k) is Some implies lookup(scoped(e2), k) == lookup(scoped(e0), k) by {
         assert(lookup(scoped(e1), k) == lookup(scoped(e0), k));
+    }
+    assert forall|k: Seq<char>| #![trigger lookup(global(e2), k)] lookup(scoped(e0), k) is Some implies lookup(global(e2), k) == lookup(global(e0), k) by {
+        assert(lookup(scoped(e1), k) == lookup(scoped(e0), k));
+        assert(lookup(global(e1), k) == lookup(global(e0), k));
     }
 }
 pub proof fn lemma_env_step_refl(e: Environment)
@@ -265,3 +275,79 @@ pub proof fn lemma_unversioned_is_base(n: VariableName)
 {
     axiom_vn(n); axiom_vn(vn_base(n));
 }
+pub open spec fn access_ok(a: AccessType, e: Environment) -> bool { match a { AccessType::ArrayAccess(i) => reads_current(*i, e), _ => true } }
+pub proof fn lemma_access_ok_mono(a: AccessType, e0: Environment, e1: Environment)
+    requires access_ok(a, e0), env_step(e0, e1)
+    ensures access_ok(a, e1)
+{
+    match a { AccessType::ArrayAccess(i) => { lemma_reads_mono(*i, e0, e1); } _ => {} }
+}
+pub proof fn lemma_access_all(s: Seq<AccessType>, n: int, e: Environment)
+    requires 0 <= n <= s.len(), forall|k: int| 0 <= k < n ==> access_ok(#[trigger] s[k], e)
+    ensures all_access_current(s, n, e)
+    decreases n
+{
+    if n > 0 { lemma_access_all(s, n - 1, e); }
+}
+pub proof fn lemma_list_all(s: Seq<Expression>, n: int, e: Environment)
+    requires 0 <= n <= s.len(), forall|k: int| 0 <= k < n ==> reads_current(#[trigger] s[k], e)
+    ensures all_current(s, n, e)
+    decreases n
+{
+    if n > 0 { lemma_list_all(s, n - 1, e); }
+}
+// handing out the first version of a variable that has no current version moves the environment on
+pub proof fn lemma_bump_locals(e0: Environment, e1: Environment, n: VariableName, v: Version)
+    requires bumped(e0, e1, n, v), env_ok(e0), is_local_var(e0, vn_base(n))
+    ensures env_ok(e1)
+{
+    assert forall|m: VariableName| #![trigger current(e1, m)] current(e1, m) is Some implies is_local_var(e1, vn_base(m)) by {
+        if kof(m) == kof(n) { axiom_key_injective(m, n); } else { assert(current(e1, m) == current(e0, m)); }
+    }
+}
+pub proof fn lemma_bump_step(e0: Environment, e1: Environment, n: VariableName, v: Version)
+    requires bumped(e0, e1, n, v), current(e0, n) is None, env_ok(e0), is_local_var(e0, vn_base(n))
+    ensures env_step(e0, e1), room_step(e0, e1, 1), env_ok(e1)
+{
+    lemma_bump_locals(e0, e1, n, v);
+    assert forall|k: int| #![trigger room(e1, k)] k >= 0 && room(e0, k + 1) implies room(e1, k) by {
+        assert forall|x: Seq<char>| #![trigger lookup(global(e1), x)] (lookup(global(e1), x) matches Some(h) ==> h + k < usize::MAX) by {
+            if x == kof(n) { let _y = lookup(global(e0), x); } else { assert(lookup(global(e1), x) == lookup(global(e0), x)); }
+        }
+    }
+}
+// composition, stated for every later environment (for arms whose last call is in tail position)
+pub proof fn lemma_compose(x: Expression, e0: Environment, e1: Environment, c1: nat)
+    requires env_step(e0, e1), room_step(e0, e1, c1), reads_current(x, e1)
+    ensures
+        forall|e2: Environment| #![trigger env_step(e1, e2)] env_step(e1, e2) ==> env_step(e0, e2) && reads_current(x, e2),
+        forall|e2: Environment, c2: nat| #![trigger room_step(e1, e2, c2)] room_step(e1, e2, c2) ==> room_step(e0, e2, c1 + c2),
+{
+    assert forall|e2: Environment| #![trigger env_step(e1, e2)] env_step(e1, e2) implies env_step(e0, e2) && reads_current(x, e2) by {
+        lemma_env_step_trans(e0, e1, e2); lemma_reads_mono(x, e1, e2);
+    }
+    assert forall|e2: Environment, c2: nat| #![trigger room_step(e1, e2, c2)] room_step(e1, e2, c2) implies room_step(e0, e2, c1 + c2) by {
+        lemma_room_trans(e0, e1, e2, c1, c2);
+    }
+}
+pub open spec fn upd_log(s: Seq<LogArgument>, n: int) -> nat
+    decreases s, n
+{
+    if n <= 0 || n > s.len() { 0 } else { upd_log(s, n - 1) + (match s[n - 1] { LogArgument::Expr(x) => upd_count(*x), _ => 0 }) }
+}
+pub open spec fn stmt_upd(s: Statement) -> nat {
+    match s {
+        Statement::Declaration { dimensions, .. } => upd_list(dimensions@, dimensions@.len() as int),
+        Statement::Substitution { rhe, .. } => upd_count(rhe) + 1,
+        Statement::ConstraintEquality { lhe, rhe, .. } => upd_count(lhe) + upd_count(rhe),
+        Statement::LogCall { args, .. } => upd_log(args@, args@.len() as int),
+        Statement::IfThenElse { cond, .. } => upd_count(cond),
+        Statement::Return { value, .. } => upd_count(value),
+        Statement::Assert { arg, .. } => upd_count(arg),
+    }
+}
+pub proof fn lemma_upd_log_mono(s: Seq<LogArgument>, i: int, n: int)
+    requires 0 <= i <= n <= s.len()
+    ensures upd_log(s, i) <= upd_log(s, n)
+    decreases n - i
+{ if i < n { lemma_upd_log_mono(s, i, n - 1); } }
